@@ -1,5 +1,6 @@
 mod common;
 mod c14;
+mod c15;
 mod c16;
 mod c01;
 mod c03;
@@ -9,6 +10,7 @@ mod c10;
 mod c17;
 mod c18;
 mod wire;
+mod forge;
 mod msgcfg;
 
 fn arg(args: &[String], name: &str, default: &str) -> String {
@@ -33,6 +35,7 @@ fn main() {
         "version" => println!("{}", pgp::VERSION),
         "c14" => c14::run(&cases, &out, &tier, seed),
         "c10" => c10::run(&cases, &out, &tier, seed),
+        "c15" => c15::run(&cases, &out, &tier, seed),
         "c18" => c18::run(&cases, &out, &tier, seed),
         "c06" => c06::run(&cases, &out, &tier, seed),
         "c16" => c16::run(&cases, &out, &tier, seed),
